@@ -5,8 +5,9 @@
 (* every candle (sequence of ChunkLen candles) of the lattice x every sequence   *)
 (* of <= MaxOrders resting order prices x every reaction script (<= MaxReact     *)
 (* reactions, each bound to the f-th fill, f nondecreasing in 1..MaxF; a         *)
-(* reaction submits one order at a lattice price or cancels the order with       *)
-(* creation ordinal j <= MaxOrders + MaxReact).  TLC builds that set from the    *)
+(* reaction submits one order at a lattice price, submits a MARKET order at the   *)
+(* current price, or cancels the order with creation ordinal j <= MaxOrders +    *)
+(* MaxReact).  TLC builds that set from the    *)
 (* constants and compares it with the keys read from the file.                   *)
 EXTENDS Lattice, TLC, Json, IOUtils
 Data == JsonDeserialize(IOEnv.TRACE_FILE)
@@ -24,7 +25,8 @@ CandleSeqs(n) == IF n = 0 THEN {<<>>} ELSE {Flat(cd) \o s : cd \in Candles, s \i
 RECURSIVE Tuples(_, _)
 Tuples(S, n) == IF n = 0 THEN {<<>>} ELSE {<<x>> \o s : x \in S, s \in Tuples(S, n - 1)}
 PriceSeqs == UNION {{<<n>> \o s : s \in Tuples(Px, n)} : n \in MinOrders..MaxOrders}
-Acts == {<<0, p>> : p \in Px} \cup {<<1, j>> : j \in 1..(MaxOrders + MaxReact)}
+\* reaction kinds: 0 submit a resting order at p, 1 cancel order j, 2 submit a MARKET order at the current price
+Acts == {<<0, p>> : p \in Px} \cup {<<1, j>> : j \in 1..(MaxOrders + MaxReact)} \cup {<<2, 0>>}
 \* r reactions with nondecreasing fill ordinals
 RECURSIVE Reacts(_, _)
 Reacts(r, fmin) == IF r = 0 THEN {<<>>}
